@@ -103,6 +103,7 @@ class Module:
         self.tree = ast.parse(source, filename=relpath)
         set_parents(self.tree)
         self.is_package = relpath.endswith("__init__.py")
+        self.cache: dict = {}  # per-module derived facts, shared by Programs that share this module
         self.imports: dict[str, str] = {}
         self._collect_imports()
 
@@ -245,7 +246,13 @@ class Program:
                 raise AnalysisError(f"cannot parse override {rel}: {e}") from e
         self.functions: dict[str, Func] = {}
         self.classes: dict[str, Cls] = {}
-        self._index()
+        if _base is not None:
+            # share the entities of untouched modules (Func/Cls objects are program-independent)
+            self.functions = {q: f for q, f in _base.functions.items() if f.module.relpath not in overrides}
+            self.classes = {q: c for q, c in _base.classes.items() if c.module.relpath not in overrides}
+            self._index([self.by_relpath[r] for r in overrides])
+        else:
+            self._index(list(self.modules.values()))
         self._mro_cache: dict[str, list[str]] = {}
         self._sub_cache: dict[str, list[str]] | None = None
         self._attr_type_cache: dict[tuple[str, str], str | None] = {}
@@ -268,10 +275,13 @@ class Program:
     def with_override(self, relpath: str, source: str) -> "Program":
         return Program(self.root, {relpath: source}, _base=self)
 
-    def _index(self) -> None:
-        for m in self.modules.values():
+    def _index(self, mods) -> None:
+        for m in mods:
             self._index_body(m, m.tree.body, m.name, None, None)
+        names = {m.name for m in mods}
         for c in self.classes.values():
+            if c.module.name not in names:
+                continue
             for b in c.node.bases:
                 d = dotted(b)
                 if d is None and isinstance(b, ast.Subscript):
@@ -665,29 +675,58 @@ class Program:
         r = self.resolve_call(f, call, fanout=False)
         return r[0] if r else "?"
 
-    def callers(self, qualname: str) -> list[tuple[Func, ast.Call]]:
+    def per_module(self, key: str, compute) -> list:
+        """Concatenate `compute(module, funcs)` over all non-generated modules, cached on the Module
+        object (so a variant Program only recomputes the overridden module).  `compute` must return
+        plain data that does not reference Func objects (use qualnames + ast nodes)."""
+        out = []
+        by_mod: dict[str, list[Func]] | None = None
+        for m in self.modules.values():
+            if any(m.relpath.startswith(s) for s in SKIP_BODIES):
+                continue
+            if key not in m.cache:
+                if by_mod is None:
+                    by_mod = {}
+                    for f in self.functions.values():
+                        by_mod.setdefault(f.module.name, []).append(f)
+                m.cache[key] = compute(m, by_mod.get(m.name, []))
+            out.extend(m.cache[key])
+        return out
+
+    def _call_index(self) -> dict[str, list[tuple[Func, ast.Call]]]:
         if self._callers_cache is None:
-            cache: dict[str, list[tuple[Func, ast.Call]]] = {}
-            for f in self.functions.values():
-                if any(f.file.startswith(s) for s in SKIP_BODIES):
-                    continue
-                for c in f.calls():
-                    for q in self.resolve_call(f, c):
-                        cache.setdefault(q, []).append((f, c))
-            self._callers_cache = cache
-        return self._callers_cache.get(qualname, [])
+
+            def comp(m, funcs):
+                res = []
+                for f in funcs:
+                    for c in f.calls():
+                        fn = c.func
+                        nm = fn.attr if isinstance(fn, ast.Attribute) else (fn.id if isinstance(fn, ast.Name) else None)
+                        if nm:
+                            res.append((nm, f.qualname, c))
+                return res
+
+            idx: dict[str, list[tuple[Func, ast.Call]]] = {}
+            for nm, q, c in self.per_module("call_index", comp):
+                idx.setdefault(nm, []).append((self.functions[q], c))
+            self._callers_cache = idx
+        return self._callers_cache
+
+    def callers(self, qualname: str) -> list[tuple[Func, ast.Call]]:
+        """Call sites that may invoke `qualname` (function, method incl. overrides fan-out, or class)."""
+        name = qualname.rpartition(".")[2]
+        out = []
+        for f, c in self._call_index().get(name, []):
+            if qualname in self.resolve_call(f, c):
+                out.append((f, c))
+        if qualname in self.functions and self.functions[qualname].name == "__init__":
+            cq = qualname.rpartition(".")[0]
+            out.extend(self.callers(cq))
+        return out
 
     def calls_by_attr(self, attr: str) -> list[tuple[Func, ast.Call]]:
         """All call sites `<anything>.attr(...)` or `attr(...)` in the program (syntactic)."""
-        out = []
-        for f in self.functions.values():
-            if any(f.file.startswith(s) for s in SKIP_BODIES):
-                continue
-            for c in f.calls():
-                fn = c.func
-                if (isinstance(fn, ast.Attribute) and fn.attr == attr) or (isinstance(fn, ast.Name) and fn.id == attr):
-                    out.append((f, c))
-        return out
+        return list(self._call_index().get(attr, []))
 
     def all_funcs(self, skip_generated: bool = True) -> list[Func]:
         return [
